@@ -133,6 +133,11 @@ def gen(rng, i, tier):
     calls = [gen_call(rng, labs) for _ in range(rng.choice([1, 1, 1, 2, 3]))]
     if len(calls) >= 2 and rng.random() < 0.35:
         calls[-1] = later_unary_form(rng, labs)
+    elif rng.random() < 0.1:
+        again = dict(rng.choice(calls))          # the same constraint once more, with another weight
+        lam2 = rng.choice([F(1), F(2), F(1, 2)])
+        again["lam"] = [lam2.numerator, lam2.denominator]
+        calls.append(again)
     return {"obj": G.jraw(obj), "calls": calls, "touch": rng.choice([None, None, "refresh", "copy"])}
 
 
